@@ -225,3 +225,12 @@ Example C11_nonvacuous :
   let r := run ops ruler_init in
   snd (get_rules r []) = [2] /\ active_names r = [[98]] /\ snd (get_rules r [120]) = [].
 Proof. vm_compute. auto. Qed.
+
+(* non-vacuity of the placement theorems with a duplicate name: push d; push d;
+   after(d, b) puts b after the FIRST d *)
+Example C11_order_nonvacuous :
+  let ops := [OpPush [100] 1 []; OpPush [100] 2 [[121]]; OpAfter [100] [98] 9 [[121]]] in
+  let r := run ops ruler_init in
+  all_names r = [[100]; [98]; [100]] /\ snd (get_rules r [121]) = [9; 2] /\
+  find (rules r) [100] = Some 0%nat.
+Proof. vm_compute. auto. Qed.
